@@ -19,7 +19,7 @@ RULE = ("(a) complete enumeration of the 1D slice space for 1..6 bins: start, st
         "histograms with asymmetric shapes and named axes; the oracle is numpy indexing applied to the source's bins / contents / errors2, "
         "plus conservation of total + underflow + overflow for non-empty contiguous slices; after each selection the result's edge "
         "representations are cross-checked; non-trivial = selection that cuts off content on at least one side, or drops >= 1 axis of a >= 3D "
-        "histogram; distinct by hash of (histogram, index)")
+        "histogram; distinct by hash of (histogram, index) Integer positions are also given as numpy integers / 0-d integer arrays, and one-axis HistogramND objects are indexed.")
 ASSUMPTIONS = ["empty selections and a zero step may be refused; forward steps are judged like the equivalent index array, negative steps must be refused",
                "unsorted / repeated index arrays: judged against 'taken in increasing order'; integer bookkeeping of what a slice cuts off is compared as integers (beyond 2**53)"]
 
